@@ -104,6 +104,7 @@ def run(ctx):
                        envs=('lp', 'lph', 'lpo', 'bare'), weights=dict(RecvNack=6, RecvData=6, RecvJunk=3, ValFinish=4))
         fc.stage_c(ctx, 'v2', ctx.pick(250, 3000), 40, names=fc.NAMES[1:],
                    weights=dict(RecvInterest=10, Reply=9, IntValFinish=5, Tick=2, Attach=3, AttachDup=0.2, Detach=0.5))
+        fc.stage_c_long(ctx, 'v2', ctx.pick(2, 12))
     codec_roundtrips(ctx)
 
 
